@@ -21,10 +21,19 @@ class Result:
         self.dist[key] = self.dist.get(key, 0) + 1
 
 
+def history_prefix(cases, idx):
+    """All lines of the history case (same `cN.` id prefix) up to and including line idx."""
+    f = cases[idx].split('\t')
+    if not f[0].startswith('h.') or len(f) < 2:
+        return [cases[idx]]
+    hid = f[1].split('.')[0] + '.'
+    return [c for c in cases[:idx + 1] if c.startswith('h.') and len(c.split('\t')) > 1 and c.split('\t')[1].startswith(hid)]
+
+
 def compare(res, prop, suite, cases, impl, model):
     cfg = runner.PROPS[prop]
     cmps = [c for c in cfg['cmps'] if c.suite == suite]
-    for c, i, m in zip(cases, impl, model):
+    for idx, (c, i, m) in enumerate(zip(cases, impl, model)):
         res.evaluations += 1
         op = c.split('\t', 1)[0]
         res.count('op:' + op)
@@ -47,7 +56,8 @@ def compare(res, prop, suite, cases, impl, model):
             iv, mv = cmpr.project(c, i, m)
             if iv != mv:
                 res.mismatches.append(dict(suite=suite, mode=cmpr.mode, kind=cmpr.kind, case=c, impl=i, model=m,
-                                           impl_view=iv, model_view=mv))
+                                           impl_view=iv, model_view=mv,
+                                           replay_cases=history_prefix(cases, idx) if len(res.mismatches) < 20 else [c]))
     if cases and len(res.samples) < 6:
         k = len(cases) // 2
         res.samples.append(dict(suite=suite, case=cases[k][:600], impl=impl[k][:400], model=model[k][:600]))
@@ -116,7 +126,12 @@ def run_property(prop, tier, seed, replay_path, t0):
                 for cm_suite in sorted(set(c_.suite for c_ in cfg['cmps'])):
                     ops = {'lex': ('parse', 'pattern'), 'tree': ('tree',), 'acrh': ('check', 'trim'), 'names': ('names',),
                            'validate': ('validate',), 'serve': ('serve',), 'errors': ('errors',),
-                           'history': ('h.zero', 'h.new', 'h.reconf', 'h.debug', 'h.config', 'h.serve')}[cm_suite]
+                           'history': ('h.zero', 'h.new', 'h.reconf', 'h.debug', 'h.config', 'h.serve')}.get(cm_suite, ('pair',))
+                    if ops == ('pair',):
+                        kind = {'pairs10': 'C10', 'pairs09': 'C09', 'twins': 'C15', 'roundtrip': 'C06'}.get(cm_suite)
+                        idx = [j for j, x in enumerate(c) if x.split('\t')[:2] == ['pair', kind]]
+                        compare(res, prop, cm_suite, [c[j] for j in idx], [i[j] for j in idx], [m[j] for j in idx])
+                        continue
                     idx = [j for j, x in enumerate(c) if x.split('\t', 1)[0] in ops]
                     compare(res, prop, cm_suite, [c[j] for j in idx], [i[j] for j in idx], [m[j] for j in idx])
             if not replay_path:
@@ -196,7 +211,7 @@ def run_property(prop, tier, seed, replay_path, t0):
     replay = dict(property=prop, tier=tier, seed=seed,
                   broken_obligations=problems,
                   failing_input_found=bool(concrete),
-                  cases=[first['case']] if first else [],
+                  cases=(first.get('replay_cases') or [first['case']]) if first else [],
                   first=first,
                   mismatches=len(violations),
                   more=[dict(suite=mm['suite'], mode=mm['mode'], kind=mm['kind'], case=mm['case'][:2000], impl_view=mm['impl_view'][:1000],
